@@ -58,6 +58,7 @@ type loopInfo struct {
 	impure  bool         // contains a heap store or a non-pure call
 	// runtime
 	variant0  *Term
+	head      *State // state at the loop head of the iteration being executed (for step clauses)
 	frame     *FrameSet
 	backEdges int
 }
@@ -804,6 +805,9 @@ func (u *Unit) enterLoop(fr *Frame, li *loopInfo, st *State) {
 			li.variant0 = u.ctx.Define("variant0", v)
 		}
 		u.addCover(st, fmt.Sprintf("cover/loop#%d", li.ordinal), li.header.Instrs[0].Pos(), True)
+		if len(li.spec.Steps) > 0 {
+			li.head = st.clone()
+		}
 	}
 }
 
@@ -836,6 +840,20 @@ func (u *Unit) checkInvariant(fr *Frame, li *loopInfo, st *State, phase string) 
 			name = fmt.Sprintf("%sinv#%d.%s/%s", prefix, li.ordinal, inv.Label, phase)
 		}
 		u.addOblNamed(st, "inv", name, "loop invariant "+phase+": "+inv.Src, pos, u.evalBoolF(env, st, inv.Expr))
+	}
+	if strings.HasPrefix(phase, "preserved") && li.head != nil {
+		// two-state step assertions: the state at the head of this iteration is prev(...)
+		senv := u.envFor(fr, st, u.entryFor(fr), nil)
+		senv.loop = li
+		senv.prevSt = li.head
+		for i, sc := range li.spec.Steps {
+			label := sc.Label
+			if label == "" {
+				label = fmt.Sprint(i + 1)
+			}
+			name := fmt.Sprintf("%sstep#%d.%s%s", prefix, li.ordinal, label, strings.TrimPrefix(phase, "preserved"))
+			u.addOblNamed(st, "step", name, "loop step (every iteration): "+sc.Src, pos, u.evalBoolF(senv, st, sc.Expr))
+		}
 	}
 	if strings.HasPrefix(phase, "preserved") && li.spec.Decreases != nil && li.variant0 != nil {
 		v := u.evalTerm(env, li.spec.Decreases.Expr)
